@@ -275,7 +275,6 @@ func runC02(c *core.Ctx) {
 	}
 }
 
-
 // ---- sequential part (Engine A): what is transmitted under n is what the store returns under n ----
 
 type c02SeqMon struct {
